@@ -166,6 +166,12 @@ def run(repo: Repo, rep: Report, tier: str) -> None:
         rep.check(bases.get(p) == b, "C11-R3", f"{pn.short} prefix {p} -> base {b}", f"parsed with base {bases.get(p)}", pn.loc())
     rep.check(default_base == 10, "C11-R3", f"{pn.short} default base 10", f"default base {default_base}", pn.loc())
 
+    # ---------------- R4 ---------------------------------------------------------------
+    from .shared import borrow as _borrow11
+    _borrow11(repo, rep, "C03", "C03-R2", "C11-R4", "a constant write enable means what the same value on a wire means: the builder treats an enable as always-on exactly for the "
+              "constants the lowerer produces for an unconditional write (1), not for any non-zero or negative constant", select=lambda o: "constant-one enables" in o.construct, floor=1)
+
+
 
 def _in_annotation(pm, n: ast.AST) -> bool:
     cur = n
